@@ -49,6 +49,26 @@ FORMS = [
     ("comment-ending-in-backslash", ["'v'"], "# c \\"),
     ("literal-tab-in-string", ["'x\ty'"], None),
 ]
+# characters str.splitlines() breaks on but which are ordinary characters inside a Python string literal
+SEP_CHARS = [("u2028", "\u2028"), ("u2029", "\u2029"), ("x85", "\x85"), ("x0c", "\x0c"), ("x0b", "\x0b"), ("x1c", "\x1c"),
+             ("x1d", "\x1d"), ("x1e", "\x1e")]
+_ALL_SEPS = "".join(ch + "    " + n for n, ch in SEP_CHARS)  # each followed by blanks a re-indenter would touch
+FORMS += [
+    ("raw-line-separator-characters-in-triple-quoted-string", ['"""a' + _ALL_SEPS + '"""'], None),
+    ("raw-line-separator-characters-in-sq-string", ["'a" + _ALL_SEPS + "'"], None),
+    ("raw-line-separator-characters-on-continuation-line-of-string", ["'ab\\", "   c" + _ALL_SEPS + "'"], None),
+    # a lone CR *is* a line end for Python: inside a triple-quoted string it reads as a newline (the reference decides)
+    ("lone-cr-in-triple-quoted-string", ['"""one\r    two"""'], None),
+]
+THOROUGH_ONLY_FORMS = set()
+for _n, _ch in SEP_CHARS:
+    for _name, _pieces in (
+        ("raw-%s-in-triple-quoted-string" % _n, ['"""one' + _ch + '    two"""']),
+        ("raw-%s-in-dq-string" % _n, ['"one' + _ch + '    two"']),
+        ("raw-%s-on-continuation-line-of-string" % _n, ["'ab\\", "   c" + _ch + "    d'"]),
+    ):
+        FORMS.append((_name, _pieces, None))
+        THOROUGH_ONLY_FORMS.add(_name)
 FORM = {f[0]: f for f in FORMS}
 
 # ---------------------------------------------------------------- statement kinds
